@@ -245,3 +245,517 @@ def fam_desc(rng, sid0, n):
         sc.feed(b"AT+L\n").settle(3000)
         out.append(sig(sc, ncmd, half, len(groups)))
     return out
+
+
+# --------------------------------------------------------------------------- C05: hex-buffer and string arguments
+
+def str_arg(rng, nplain, nesc, alphabet=None):
+    """A quoted string argument with nplain plain and nesc escaped characters; returns (text, decoded)."""
+    items = [("p", None)] * nplain + [("e", None)] * nesc
+    rng.shuffle(items)
+    txt, dec = b'"', b""
+    for kind, _ in items:
+        if kind == "p":
+            ch = rng.choice(alphabet) if alphabet else rng.choice([x for x in range(1, 256) if x not in (10, 13, 34, 92)])
+            txt += bytes([ch]); dec += bytes([ch])
+        else:
+            e, d = rng.choice([(b'\\\\', b'\\'), (b'\\"', b'"'), (b'\\n', b'\n')])
+            txt += e; dec += d
+    return txt + b'"', dec
+
+
+def fam_buf(rng, sid0, n):
+    out = []
+    for i in range(n):
+        vtype = rng.choice([BUFHEX, STRING])
+        size = rng.choice(list(range(1, 13)) + [16, 31, 32, 33, 63, 64])
+        acc = rng.choice([RW, RW, WO, RO])
+        nvars = rng.choice([1, 1, 2, 3])
+        pos = rng.randrange(nvars)
+        vs = []
+        for k in range(nvars):
+            if k == pos:
+                vs.append(Var(vtype, size, acc, "b", vw=rng.random() < 0.5, mem=gen.rand_mem(rng, vtype, size)))
+            else:
+                vs.append(Var(UINT, 1, RW, None, mem=b"\x07"))
+        cmd = Cmd("+B", hw=rng.random() < 0.5, vars=vs)
+        half = 2 * 64 + 3 * 66 + 16
+        sc = Scenario(sid0 + i, [cmd], qcap=1, bufsize=2 * half, grain=rng.choice(["compact", "compact", "step"]), meta={"family": "fam_buf"})
+        texts = []
+        for L in sorted({max(0, size - 2), size - 1, size, size + 1, 0, 1}):
+            if L < 0:
+                continue
+            if vtype == BUFHEX:
+                h = "".join(rng.choice("0123456789abcdefABCDEF") for _ in range(2 * L))
+                texts += [h.encode(), (h + "0").encode(), (h[:-1] if h else "g").encode(), (h + "zz").encode(), (h + ",").encode()]
+            else:
+                for nesc in sorted({0, 1, L} & set(range(0, L + 1))):
+                    t, _ = str_arg(rng, L - nesc, nesc)
+                    texts.append(t)
+                    # escape in the last position
+                    t2, _ = str_arg(rng, max(0, L - 1), 0)
+                    if L >= 1:
+                        texts.append(t2[:-1] + rng.choice([b'\\\\', b'\\"', b'\\n']) + b'"')
+                texts += [b'"abc', b'abc"', b'"a\\x"', b'"a"b', b'""x', b'"', b'\\"', b'"\\', b'']
+        rng.shuffle(texts)
+        lines = []
+        for tx in texts[:rng.choice([20, 30])]:
+            args = [b"7"] * nvars
+            args[pos] = tx
+            lines.append(b"AT+B=" + b",".join(args) + rng.choice([b"\n", b"\r\n"]))
+        line_block(sc, lines)
+        out.append(sig(sc, vtype, size, acc, nvars, pos))
+    return out
+
+
+# --------------------------------------------------------------------------- C03 / C06: capacity boundaries
+
+def fam_bounds(rng, sid0, n):
+    out = []
+    for i in range(n):
+        acap = rng.choice([6, 7, 8, 9, 16, 17, 64])
+        shared = rng.random() < 0.5
+        if shared:
+            bufsize, usize = 2 * acap + rng.choice([0, 1]), -1
+            ucap = acap
+        else:
+            ucap = rng.choice([0, 1, 2, 3, acap, 5, 12])
+            bufsize, usize = acap, ucap
+        # names short enough that something fits
+        cw = Cmd("+W", hw=True)                                             # raw write handler
+        ci = Cmd("I", hw=True, implicit=True)                               # implicit write
+        vsz = rng.choice([2, 4, 9])
+        cv = Cmd("+V", hw=rng.random() < 0.5, vars=[Var(STRING, vsz, RW, None, mem=bytes(vsz))])
+        nvr = rng.choice([1, 2, 3])
+        cr = Cmd("+R", hr=rng.random() < 0.6, ht=rng.random() < 0.5, desc=rng.choice([None, "dd", "a longer description"]),
+                 vars=[Var(rng.choice([UINT, INT, HEX]), sz, RW, rng.choice([None, "n"]), mem=bytes(rng.randrange(256) for _ in range(sz)))
+                       for sz in [rng.choice([1, 2, 4]) for _ in range(nvr)]])
+        cs = Cmd("+S", hr=rng.random() < 0.5, vars=[Var(STRING, 12, RW, None, mem=(b"x" * rng.randint(0, 11)).ljust(12, b"\0")),
+                                                      Var(BUFHEX, 3, RW, None, mem=b"\x01\xfe\x80")])
+        cl = Cmd("+L", hx=True)
+        cmds = [cw, ci, cv, cr, cs, cl]
+        sc = Scenario(sid0 + i, cmds, qcap=2, bufsize=bufsize, usize=usize, grain=rng.choice(["step", "compact"]), auto="" , meta={"family": "fam_bounds"})
+        sc.hs(5, "x", ret=R_LIST)
+        lines = []
+        for L in [acap - 2, acap - 1, acap, acap + 1, 3 * acap, rng.randint(0, acap)]:
+            if L < 0:
+                continue
+            body = bytes(rng.choice([x for x in range(0, 256) if x != 10]) for _ in range(L))
+            body = body.replace(b"?", b"x") if rng.random() < 0.7 else body
+            lines.append(b"AT+W=" + body + b"\n")
+            lines.append(b"ATI" + body + b"\n")
+            lines.append(b"AT+V=\"" + b"a" * max(0, L - 2) + b"\"\n")
+        lines += [b"AT+R?\n", b"AT+R=?\n", b"AT+S?\n", b"AT+S=?\n", b"AT+L\n", b"AT+V?\r\n", b"AT+W=?\n", b"AT+W?\n"]
+        rng.shuffle(lines)
+        for l in lines:
+            # event-side formatting at the same boundaries while a command line is being processed
+            if rng.random() < 0.4:
+                sc.trig(rng.choice([3, 4, 2]), rng.choice("rt"))
+            sc.feed(l)
+            sc.settle(6000)
+        out.append(sig(sc, acap, ucap, shared))
+    return out
+
+
+# --------------------------------------------------------------------------- C07: literal round trip
+
+def rt_mem(rng, vtype, size):
+    if vtype == STRING:
+        k = rng.randint(0, size - 1)
+        body = bytes(rng.choice([x for x in range(1, 256) if x != 13]) if rng.random() < 0.6 else rng.choice(b'"\\\n,a') for _ in range(k))
+        return body + bytes(size - k)
+    if rng.random() < 0.4:
+        return rng.choice([b"\x00", b"\xff", b"\x7f", b"\x80", b"\x01"]) * size if rng.random() < 0.5 else (b"\x00" * (size - 1) + rng.choice([b"\x80", b"\x7f", b"\xff"]))
+    return bytes(rng.randrange(256) for _ in range(size))
+
+
+def fam_round(rng, sid0, n):
+    out = []
+    for i in range(n):
+        nv = rng.randint(1, 6)
+        vs = []
+        for _ in range(nv):
+            vtype = rng.choice([INT, UINT, HEX, BUFHEX, STRING])
+            size = rng.choice([1, 2, 4]) if vtype in (INT, UINT, HEX) else rng.choice([1, 2, 3, 5, 8, 17, 64] if vtype == BUFHEX else [1, 2, 3, 5, 8, 17, 64])
+            vs.append(Var(vtype, size, RW if not vs else rng.choice([RW, RW, RW, RO]), rng.choice([None, "v"]), mem=rt_mem(rng, vtype, size)))
+        cmd = Cmd("+RT", vars=vs, hw=rng.random() < 0.3)
+        # worst-case text length
+        worst = 4 + sum({INT: 11, UINT: 10, HEX: 10}.get(v.type, 2 * v.size + 2) + 1 for v in vs) + 8
+        half = worst + rng.choice([0, 8, 50])
+        sc = Scenario(sid0 + i, [cmd], qcap=1, bufsize=2 * half, grain="compact", meta={"family": "fam_round"})
+        for rep in range(rng.choice([4, 8])):
+            for vi, v in enumerate(vs):
+                sc.setmem(0, vi, rt_mem(rng, v.type, v.size))
+            sc.op("roundtrip 0 20000")
+        out.append(sig(sc, tuple((v.type, v.size) for v in vs)))
+    return out
+
+
+def fam_round_exh8(rng, sid0, n):
+    """All 256 patterns of the 8-bit numeric types in the first 12 scenarios (64 values each), then slices of the 16-bit ones."""
+    out = []
+    for i in range(n):
+        vtype = [INT, UINT, HEX][i % 3]
+        size = 1 if i < 12 else 2
+        cmd = Cmd("+E", vars=[Var(vtype, size, RW, None, mem=bytes(size))])
+        sc = Scenario(sid0 + i, [cmd], qcap=1, bufsize=64, grain="compact", meta={"family": "fam_round_exh8"})
+        if size == 1:
+            q = (i // 3) % 4
+            vals = range(64 * q, 64 * q + 64)
+        else:
+            vals = rng.sample(range(65536), 80) + [0, 1, 0x7fff, 0x8000, 0xffff, 0x00ff, 0xff00]
+        for x in vals:
+            sc.setmem(0, 0, int(x).to_bytes(size, "little"))
+            sc.op("roundtrip 0 2000")
+        out.append(sig(sc, vtype, size, i // 3))
+    return out
+
+
+# --------------------------------------------------------------------------- C08: access modes
+
+def fam_access(rng, sid0, n):
+    out = []
+    for i in range(n):
+        nv = rng.randint(1, 4)
+        vs = []
+        for _ in range(nv):
+            vtype = rng.choice([INT, UINT, HEX, BUFHEX, STRING])
+            size = rng.choice([1, 2, 4]) if vtype in (INT, UINT, HEX) else rng.choice([2, 3, 6])
+            vs.append(Var(vtype, size, rng.choice([RW, RO, WO]), rng.choice([None, "v"]), vr=rng.random() < 0.2, vw=rng.random() < 0.2,
+                          mem=rt_mem(rng, vtype, size)))
+        cmd = Cmd("+A", vars=vs, hw=rng.random() < 0.4, hr=rng.random() < 0.4, ht=rng.random() < 0.2, need_all=rng.random() < 0.3)
+        sc = Scenario(sid0 + i, [cmd, Cmd("+X", hx=True)], qcap=2, bufsize=400, grain=rng.choice(["step", "compact"]), meta={"family": "fam_access"})
+        lines = []
+        for _ in range(10):
+            k = rng.randint(0, nv)
+            args = []
+            for v in vs[:k]:
+                a = gen.valid_arg(rng, v)
+                r = rng.random()
+                if r < 0.25:
+                    a = gen.garble(rng, a)
+                elif r < 0.4 and v.type in (INT, UINT, HEX):
+                    a = rng.choice(["99999999999", "-99999999999", "0xFFFFFFFFFF", "300", "70000"])
+                args.append(a)
+            lines.append(("AT+A=" + ",".join(args) + "\n").encode("latin-1"))
+        lines += [b"AT+A?\n", b"AT+A=?\n", b"AT+A?\r\n", b"AT+A\n"]
+        rng.shuffle(lines)
+        for l in lines:
+            if rng.random() < 0.3:
+                sc.trig(0, rng.choice("rt"))
+            if rng.random() < 0.3:
+                vi = rng.randrange(nv)
+                sc.setmem(0, vi, rt_mem(rng, vs[vi].type, vs[vi].size))
+            sc.feed(l)
+            sc.settle(5000)
+        out.append(sig(sc, tuple((v.type, v.size, v.acc) for v in vs), cmd.hw, cmd.hr))
+    return out
+
+
+# --------------------------------------------------------------------------- C09: flags and their histories
+
+def fam_flags(rng, sid0, n):
+    out = []
+    for i in range(n):
+        names = rng.choice([["A", "AB", "ABC"], ["+T", "+TA", "+TB"], ["X1", "X12", "Y"], ["+P", "+PQ", "+PQR", "+Z"]])
+        cmds = []
+        for nm in names:
+            imp = rng.random() < 0.15
+            cmds.append(Cmd(nm, hw=True, hr=not imp, hx=not imp, ht=(not imp) and rng.random() < 0.5, implicit=imp,
+                            vars=[Var(UINT, 1, RW, "x", vr=rng.random() < 0.3, vw=rng.random() < 0.3, mem=b"\x05")] if rng.random() < 0.6 else [],
+                            only_test=rng.random() < 0.15, disable=rng.random() < 0.2))
+        lister = Cmd("+L", hx=True)
+        ng = rng.choice([1, 2, 3])
+        groups = [(rng.random() < 0.2, []) for _ in range(ng)]
+        groups[0] = (False, [lister])
+        for c in cmds:
+            groups[rng.randrange(ng)][1].append(c)
+        groups = [g for g in groups if g[1]]
+        sc = Scenario(sid0 + i, groups, qcap=2, bufsize=rng.choice([32, 64]), grain=rng.choice(["step", "compact"]), meta={"family": "fam_flags"})
+        allc = sc.cmds()
+        li = [k for k, c in enumerate(allc) if c.name == "+L"][0]
+        sc.hs(li, "x", ret=R_LIST)
+        sc.hs(li, "x", ret=R_LIST)
+        sc.hs(li, "x", ret=R_LIST)
+        for rnd in range(rng.choice([4, 7])):
+            lines = []
+            for nm in names:
+                for k in range(1, len(nm) + 1):
+                    lines.append(("AT" + nm[:k] + rng.choice(["", "?", "=1", "=?", "1"]) + "\n").encode())
+            rng.shuffle(lines)
+            line_block(sc, lines[:6])
+            if rng.random() < 0.3:
+                sc.feed(b"AT+L\n").settle(4000)
+            # toggle
+            for _ in range(rng.choice([1, 1, 2])):
+                if rng.random() < 0.6:
+                    sc.flag_cmd(rng.randrange(len(allc)), rng.choice(["disable", "disable", "only_test"]), rng.random() < 0.5)
+                else:
+                    sc.flag_group(rng.randrange(len(sc.groups)), rng.random() < 0.5)
+        out.append(sig(sc, tuple(names), ng))
+    return out
+
+
+# --------------------------------------------------------------------------- C10: return code sequences
+
+def fam_codes(rng, sid0, n):
+    out = []
+    term = [R_OK, R_DATA_OK, R_ERROR, R_HOLD_EXIT_OK, R_HOLD_EXIT_ERROR, R_LIST, -2, 9, 1000]
+    for i in range(n):
+        var = Var(UINT, 1, RW, "x", vr=rng.random() < 0.4, vw=rng.random() < 0.4, mem=b"\x05")
+        cmd = Cmd("+C", hw=True, hr=True, hx=True, ht=True, vars=[var] if rng.random() < 0.7 else [], desc=rng.choice([None, "d"]))
+        cu = Cmd("+U", hr=True, ht=True, vars=[Var(UINT, 2, RW, "y", vr=rng.random() < 0.3, mem=b"\x01\x02")] if rng.random() < 0.7 else [])
+        sc = Scenario(sid0 + i, [cmd, cu], qcap=2, bufsize=rng.choice([48, 96]), grain=rng.choice(["step", "compact"]), meta={"family": "fam_codes"})
+        seqs = 0
+        for kind, line in (("w", b"AT+C=1\n"), ("r", b"AT+C?\n"), ("x", b"AT+C\n"), ("t", b"AT+C=?\r\n")):
+            for _ in range(rng.choice([2, 3])):
+                k = rng.choice([0, 0, 1, 2, 3, 5, 12])
+                codes = [rng.choice([R_NEXT, R_DATA_NEXT]) for _ in range(k)] + [rng.choice(term)]
+                for cd in codes:
+                    data = None
+                    if kind in ("r", "t") and rng.random() < 0.5:
+                        data = bytes(rng.choice(b"abcxyz=,") for _ in range(rng.randint(0, 8)))
+                    act = None
+                    if cmd.vars and rng.random() < 0.4:
+                        act = "setmem:0:0:%02x" % rng.randrange(256)
+                    sc.hs(0, kind, "c", ret=cd, data=data, act=act)
+                if cmd.vars and rng.random() < 0.3:
+                    sc.vs(0, 0, "r" if kind == "r" else "w", ret=rng.choice([0, 0, 1]))
+                sc.feed(line).settle(6000)
+                seqs += 1
+        for kind in ("r", "t"):
+            for _ in range(2):
+                k = rng.choice([0, 1, 2, 4])
+                codes = [rng.choice([R_NEXT, R_DATA_NEXT]) for _ in range(k)] + [rng.choice(term)]
+                for cd in codes:
+                    data = bytes(rng.choice(b"uvw0=") for _ in range(rng.randint(0, 6))) if rng.random() < 0.5 else None
+                    sc.hs(1, kind, "e", ret=cd, data=data, act=("setmem:1:0:%02x%02x" % (rng.randrange(256), rng.randrange(256))) if cu.vars and rng.random() < 0.4 else None)
+                sc.trig(1, kind)
+                sc.settle(6000)
+        out.append(sig(sc, seqs, bool(cmd.vars), bool(cu.vars)))
+    return out
+
+
+# --------------------------------------------------------------------------- C11 / C12 / C18: schedules
+
+def sched_scenario(rng, sid, p_rd, p_wr, qcap, seedkey, step=True):
+    """Line commands (+C, +L) and event commands (+U, +V, +W) are distinct, so every unit can be attributed."""
+    r2 = random.Random(seedkey)      # the same table, scripts, lines and trigger points for every schedule of this key
+    cC = Cmd("+C", hr=True, hw=True, vars=[Var(UINT, 2, RW, "c", mem=b"\x10\x00")])
+    cL = Cmd("+L", hx=True)
+    cU = Cmd("+U", hr=True, vars=[Var(UINT, 1, RW, "u", mem=b"\x05")])
+    cV = Cmd("+V")                                          # fails at once
+    cW = Cmd("+W", ht=r2.random() < 0.5, desc="evt", vars=[Var(STRING, 6, RW, "w", mem=b"ab\0\0\0\0")])
+    sc = Scenario(sid, [cC, cL, cU, cV, cW], qcap=qcap, bufsize=r2.choice([40, 64]), grain="step" if step else "compact", auto="bhfe" if step else "",
+                  meta={"family": "fam_sched"})
+    sc.hs(1, "x", ret=R_LIST)
+    sc.hs(1, "x", ret=R_LIST)
+    for _ in range(4):
+        k = r2.choice([0, 1, 2, 3])
+        for j in range(k):
+            sc.hs(0, "r", "c", ret=R_DATA_NEXT, data=b"c%d" % j, act=("trig:%d:r" % r2.choice([2, 3, 4])) if r2.random() < 0.3 else None)
+        sc.hs(0, "r", "c", ret=r2.choice([R_DATA_OK, R_OK, R_DATA_OK]), data=b"cend" if r2.random() < 0.5 else None)
+    for _ in range(6):
+        k = r2.choice([0, 1, 2])
+        for j in range(k):
+            sc.hs(2, "r", "e", ret=R_DATA_NEXT, data=b"u%d" % j)
+        sc.hs(2, "r", "e", ret=r2.choice([R_DATA_OK, R_DATA_OK, R_OK]), data=b"uend" if r2.random() < 0.5 else None)
+    # schedules differ, everything else is drawn from r2
+    def bits(p, n, refuse):
+        return "".join(rng.choice(refuse) if rng.random() < p else "1" for _ in range(n)) if p > 0 else ""
+    sc.rds(bits(p_rd, 400, "0"))
+    sc.wrs(bits(p_wr, 1200, "02n"))
+    lines = [b"AT+C?\n", b"AT+L\r\n", b"AT+C=77\n", b"AT+C?\r\n", b"AT+X\n", b"AT+C=?\n"]
+    r2.shuffle(lines)
+    for l in lines[:r2.choice([3, 5])]:
+        for _ in range(r2.choice([0, 1, 2])):
+            sc.trig(r2.choice([2, 2, 3, 4]), r2.choice("rt"))
+        sc.feed(l)
+        sc.settle(20000)
+    return sc
+
+
+def fam_sched(rng, sid0, n):
+    out = []
+    i = 0
+    while len(out) < n:
+        key = rng.randrange(1 << 30)
+        qcap = rng.choice([1, 2, 3])
+        # the same scenario under the eager schedule and K other schedules (C12)
+        for p_rd, p_wr in [(0, 0), (0.5, 0.1), (0.1, 0.5), (0.9, 0.9)]:
+            if len(out) >= n:
+                break
+            s = sched_scenario(rng, sid0 + len(out), p_rd, p_wr, qcap, key)
+            s.meta["conf_key"] = key
+            out.append(sig(s, key, p_rd, p_wr))
+    return out
+
+
+# --------------------------------------------------------------------------- C13: ring histories
+
+def fam_ring(rng, sid0, n):
+    out = []
+    for i in range(n):
+        qcap = [1, 2, 3, 8][i % 4]
+        cU = Cmd("+U", hr=rng.random() < 0.6, vars=[Var(UINT, 1, RW, "u", mem=b"\x05")])
+        cT = Cmd("+T", ht=rng.random() < 0.5, vars=[Var(INT, 2, RW, "t", mem=b"\xff\xff")], desc=rng.choice([None, "dd"]))
+        cV = Cmd("+V")
+        cC = Cmd("+C", hx=True, hr=True)
+        sc = Scenario(sid0 + i, [cU, cT, cV, cC], qcap=qcap, bufsize=rng.choice([32, 64]), usize=rng.choice([-1, -1, 16, 7]), grain="step", auto="fe",
+                      meta={"family": "fam_ring"})
+        for _ in range(30):
+            sc.hs(0, "r", "e", ret=rng.choice([R_DATA_OK, R_DATA_OK, R_OK, R_ERROR, R_DATA_NEXT]), data=rng.choice([None, b"uu"]))
+            sc.hs(1, "t", "e", ret=rng.choice([R_DATA_OK, R_OK, R_NEXT]))
+        sc.wrs(gen.rand_wsched(rng, 600))
+        for _ in range(rng.choice([40, 80])):
+            r = rng.random()
+            if r < 0.45:
+                for _ in range(rng.randint(1, qcap + 1)):
+                    sc.trig(rng.choice([0, 0, 1, 2]), rng.choice("rt"))
+            elif r < 0.75:
+                sc.svc(rng.randint(1, 30))
+            elif r < 0.85:
+                sc.qbuf(rng.choice([0, 1, 2]), rng.choice("rtn"))
+            elif r < 0.9:
+                sc.feed(rng.choice([b"AT+C\n", b"AT+C?\n", b"AT\n"]))
+            else:
+                sc.settle(8000)
+        sc.settle(20000)
+        out.append(sig(sc, qcap))
+    return out
+
+
+# --------------------------------------------------------------------------- C14: hold
+
+def fam_hold(rng, sid0, n):
+    out = []
+    for i in range(n):
+        kind = "wrxt"[i % 4]
+        cH = Cmd("+H", hw=True, hr=True, hx=True, ht=True, vars=[Var(UINT, 1, RW, "h", mem=b"\x01")] if rng.random() < 0.5 else [])
+        cU = Cmd("+U", hr=True, vars=[Var(UINT, 1, RW, "u", mem=b"\x05")])
+        cN = Cmd("+N", hx=True)
+        sc = Scenario(sid0 + i, [cH, cU, cN], qcap=rng.choice([1, 2]), bufsize=64, grain="step", auto="bh", meta={"family": "fam_hold"})
+        line = {"w": b"AT+H=1\n", "r": b"AT+H?\n", "x": b"AT+H\n", "t": b"AT+H=?\n"}[kind]
+        for rnd in range(rng.choice([2, 4])):
+            pre = rng.choice([0, 0, 1, 2])
+            for j in range(pre):
+                sc.hs(0, kind, "c", ret=rng.choice([R_NEXT, R_DATA_NEXT]))
+            sc.hs(0, kind, "c", ret=R_HOLD, act=rng.choice([None, None, "hexit:0", "q:hold"]))
+            via_event = rng.random() < 0.4
+            status = rng.choice([0, -1])
+            if via_event:
+                sc.hs(1, "r", "e", ret=rng.choice([R_DATA_OK, R_OK]))
+                sc.hs(1, "r", "e", ret=R_HOLD_EXIT_OK if status == 0 else R_HOLD_EXIT_ERROR, data=rng.choice([None, b"uu"]))
+            else:
+                sc.hs(1, "r", "e", ret=R_DATA_OK)
+                sc.hs(1, "r", "e", ret=R_DATA_OK)
+            if rng.random() < 0.3:
+                sc.hexit(rng.choice([0, -1]))                      # spurious, before
+            sc.feed(line)
+            if rng.random() < 0.6:
+                sc.feed(rng.choice([b"AT+N\n", b"AT\n", b"AT+H\n"]))   # a further line already waiting
+                sc.hs(0, "x", "c", ret=R_OK)
+            sc.wrs(gen.rand_wsched(rng, 200))
+            sc.svc(rng.randint(5, 60))
+            sc.trig(1, "r")                                         # events keep being delivered during the hold
+            sc.svc(rng.randint(5, 80))
+            if via_event:
+                sc.trig(1, "r")
+                sc.svc(rng.randint(1, 60))
+            else:
+                sc.hexit(status)
+                if rng.random() < 0.3:
+                    sc.hexit(rng.choice([0, -1]))                  # repeated
+            sc.svc(rng.randint(0, 5))
+            if rng.random() < 0.4:
+                sc.hexit(rng.choice([0, -1]))                      # during / after the release window
+            sc.settle(20000)
+            sc.hexit(0)                                             # spurious, after (or releases a hold taken by the queued line)
+            sc.settle(20000)
+        out.append(sig(sc, kind))
+    return out
+
+
+# --------------------------------------------------------------------------- C15: events that fail at once in every queue position
+
+def fam_quiesce(rng, sid0, n):
+    out = []
+    for i in range(n):
+        qcap = rng.choice([2, 3, 8])
+        cBad = Cmd("+BAD")
+        cLong = Cmd("+LONGNAMEXXXXXXXXXXXXXXXXXXXXXXXXXXXXXXXXXXXXXXXXX", vars=[Var(UINT, 1, RW, None, mem=b"\x01")])
+        cU = Cmd("+U", hr=rng.random() < 0.5, vars=[Var(UINT, 1, RW, "u", vr=rng.random() < 0.3, mem=b"\x05")])
+        cE = Cmd("+E", vars=[Var(UINT, 3, RW, None, mem=b"\0\0\0")])        # unsupported size: formatting fails
+        sc = Scenario(sid0 + i, [cBad, cLong, cU, cE], qcap=qcap, bufsize=rng.choice([40, 48]), grain="step", auto="be", meta={"family": "fam_quiesce"})
+        sc.vs(2, 0, "r", ret=rng.choice([0, 1]))
+        for _ in range(rng.choice([3, 6])):
+            ks = [rng.choice([0, 1, 2, 3]) for _ in range(rng.randint(1, qcap))]
+            for k in ks:
+                sc.trig(k, rng.choice("rt"))
+            if rng.random() < 0.5:
+                sc.feed(rng.choice([b"AT\n", b"AT+U?\n"]))
+            sc.settle(20000)
+        out.append(sig(sc, qcap))
+    return out
+
+
+# --------------------------------------------------------------------------- C16: mutex
+
+def fam_mutex(rng, sid0, n):
+    out = []
+    base = None
+    for i in range(n):
+        if i % 8 == 0:
+            base = rng.randrange(1 << 30)
+        r2 = random.Random(base)
+        cC = Cmd("+C", hr=True, hw=True, hx=True, vars=[Var(UINT, 1, RW, "c", vr=True, vw=True, mem=b"\x09")])
+        cU = Cmd("+U", hr=True, vars=[Var(UINT, 1, RW, "u", mem=b"\x05")])
+        sc = Scenario(sid0 + i, [cC, cU], qcap=2, bufsize=64, mutex=True, grain="step", auto="bhf", meta={"family": "fam_mutex"})
+        sc.hs(0, "x", ret=R_HOLD)
+        ops = 0
+        if i % 8 != 0:
+            # lock or unlock failing at the k-th invocation (the history itself is the same for the 8 scenarios of a base)
+            k = rng.randint(1, 900)
+            (sc.lock_fail if rng.random() < 0.5 else sc.unlock_fail)(k, rng.choice([1, -1, 5]))
+            if rng.random() < 0.3:
+                (sc.lock_fail if rng.random() < 0.5 else sc.unlock_fail)(rng.randint(1, 900), 1)
+        for _ in range(6):
+            r = r2.random()
+            if r < 0.3:
+                sc.trig(1, r2.choice("rt"), api=r2.choice(["trig", "trigr", "trigt"]))
+            sc.feed(r2.choice([b"AT+C?\n", b"AT+C=3\n", b"AT+C\n", b"AT+Q\n"]))
+            sc.svc(r2.randint(1, 40))
+            sc.hexit(r2.choice([0, -1]))
+            sc.settle(6000)
+        sc.hexit(0)
+        sc.settle(6000)
+        out.append(sig(sc, base, i % 8))
+    return out
+
+
+# --------------------------------------------------------------------------- C20: line sequences in all orders, stale object memory
+
+LINE_CLASSES = [b"AT\n", b"AT+A\n", b"AT+A?\n", b"AT+A=5\n", b"AT+A=?\n", b"AT+AB=1\r\n", b"AT+\n", b"AT+A=999\n", b"ATI7\n", b"ATI\r\n",
+                b"AT+A=" + b"x" * 40 + b"\n", b"xyz\n", b"AT+A?x\n", b"A\n", b"AT+A\r=\r5\n", b"\r\n", b"AT+AB\n", b"AT+A=\"q\n", b"at+ab?\r\n"]
+
+
+def fam_hist(rng, sid0, n):
+    out = []
+    for i in range(n):
+        cA = Cmd("+A", hw=rng.random() < 0.5, hr=True, hx=True, ht=rng.random() < 0.5, vars=[Var(UINT, 1, RW, "a", mem=b"\x05")])
+        cAB = Cmd("+AB", hw=True, hr=True, hx=True)
+        cI = Cmd("I", hw=True, implicit=True, vars=[Var(UINT, 1, RW, None, mem=b"\x01")])
+        fill = rng.choice([0, 0, 0xA5, 0xFF, 0x55])
+        sc = Scenario(sid0 + i, [cA, cAB, cI], qcap=1, bufsize=rng.choice([24, 32, 64]), fill=fill, grain=rng.choice(["step", "compact"]),
+                      meta={"family": "fam_hist"})
+        k = rng.randint(2, 4) if rng.random() < 0.5 else rng.randint(5, 12)
+        pick = [rng.choice(LINE_CLASSES) for _ in range(k)]
+        orders = list(itertools.permutations(pick)) if k <= 3 else [pick, pick[::-1]]
+        order = list(rng.choice(orders))
+        if rng.random() < 0.5:
+            # fed in one piece: the lines queue up behind each other
+            sc.feed(b"".join(order)).settle(30000)
+        else:
+            line_block(sc, order, 10000)
+        out.append(sig(sc, tuple(order), fill))
+    return out
